@@ -685,7 +685,7 @@ theorem d0_reloadOk (u : Pyx.Sql.UC) : ReloadOk u d0 (some 6) false := by
   have hown : findClass d0 1 = some ⟨1, "OWN", [⟨11, "id", .base 102⟩, ⟨12, "name", .base 104⟩, ⟨13, "age", .derived 102⟩], [⟨0, [11]⟩], .pkg 5⟩ := by decide
   have hdog : findClass d0 2 = some ⟨2, "DOG", [⟨21, "tag", .base 51⟩, ⟨22, "color", .base 50⟩, ⟨23, "owner_id", .ref 1 11⟩], [⟨0, [21]⟩, ⟨1, []⟩], .pkg 5⟩ := by decide
   have hlsh : findClass d0 3 = some ⟨3, "LSH", [⟨31, "front", .ref 2 21⟩, ⟨32, "back", .ref 2 21⟩], [⟨0, [31, 32]⟩], .pkg 5⟩ := by decide
-  refine ⟨?_, ?_, by decide, ?_⟩
+  refine ⟨?_, ?_, by decide, ?_, ?_⟩
   · simp only [d0, List.map_cons, List.map_nil]
     rw [up "OWN".toList (by unfold Pyx.Sql.AsciiText; decide), up "DOG".toList (by unfold Pyx.Sql.AsciiText; decide),
       up "LSH".toList (by unfold Pyx.Sql.AsciiText; decide)]
@@ -705,6 +705,32 @@ theorem d0_reloadOk (u : Pyx.Sql.UC) : ReloadOk u d0 (some 6) false := by
     rcases hr with rfl | rfl
     · exact ⟨_, _, hdog, hown, by decide, by decide, by decide⟩
     · exact ⟨⟨_, _, hlsh, hdog, by decide, by decide, by decide⟩, ⟨_, _, hlsh, hdog, by decide, by decide, by decide⟩⟩
+  · intro c hc
+    rw [Pyx.Sql.attrNamesOk_iff]
+    simp only [d0, List.mem_cons, List.not_mem_nil, or_false] at hc
+    rcases hc with rfl | rfl | rfl
+    · have e : (classOf d0 false ⟨1, "OWN", [⟨11, "id", .base 102⟩, ⟨12, "name", .base 104⟩, ⟨13, "age", .derived 102⟩], [⟨0, [11]⟩], .pkg 5⟩).toM.attrs.map (·.1) =
+          ["id".toList, "name".toList] := by decide
+      rw [show ∀ l : List (Pyx.Sql.Name × Pyx.Sql.Name), l.map (fun a => u.upper a.1) = (l.map (·.1)).map u.upper from
+        fun l => by rw [List.map_map]; rfl, e]
+      simp only [List.map_cons, List.map_nil]
+      rw [up "id".toList (by unfold Pyx.Sql.AsciiText; decide), up "name".toList (by unfold Pyx.Sql.AsciiText; decide)]
+      decide
+    · have e : (classOf d0 false ⟨2, "DOG", [⟨21, "tag", .base 51⟩, ⟨22, "color", .base 50⟩, ⟨23, "owner_id", .ref 1 11⟩], [⟨0, [21]⟩, ⟨1, []⟩], .pkg 5⟩).toM.attrs.map (·.1) =
+          ["tag".toList, "color".toList, "owner_id".toList] := by decide
+      rw [show ∀ l : List (Pyx.Sql.Name × Pyx.Sql.Name), l.map (fun a => u.upper a.1) = (l.map (·.1)).map u.upper from
+        fun l => by rw [List.map_map]; rfl, e]
+      simp only [List.map_cons, List.map_nil]
+      rw [up "tag".toList (by unfold Pyx.Sql.AsciiText; decide), up "color".toList (by unfold Pyx.Sql.AsciiText; decide),
+        up "owner_id".toList (by unfold Pyx.Sql.AsciiText; decide)]
+      decide
+    · have e : (classOf d0 false ⟨3, "LSH", [⟨31, "front", .ref 2 21⟩, ⟨32, "back", .ref 2 21⟩], [⟨0, [31, 32]⟩], .pkg 5⟩).toM.attrs.map (·.1) =
+          ["front".toList, "back".toList] := by decide
+      rw [show ∀ l : List (Pyx.Sql.Name × Pyx.Sql.Name), l.map (fun a => u.upper a.1) = (l.map (·.1)).map u.upper from
+        fun l => by rw [List.map_map]; rfl, e]
+      simp only [List.map_cons, List.map_nil]
+      rw [up "front".toList (by unfold Pyx.Sql.AsciiText; decide), up "back".toList (by unfold Pyx.Sql.AsciiText; decide)]
+      decide
 
 /-- the metamodel the writers see for d0's component: three classes, three associations (R2 twice) -/
 example : ((extract d0 (some 6) false).toMM).classes.map (fun c => (c.kind, c.attrs.map (·.1), c.indices.map (·.2))) =
